@@ -23,8 +23,20 @@ EndClass   == {"empty", "below", "equal", "normal", "ff"}
 LimitClass == {"zero", "small", "huge", "negative"}
 TxnClass   == {"create", "update", "delete", "delete0", "compact", "empty", "mismatch", "twocmp", "putonly", "nested"}
 
+\* a fault of the storage engine while the request runs (one call of that kind fails): the request must still be answered --
+\* with an error or a response --, no metric may be emitted with another label set on the error path, and the node goes on
+FaultClass == {"iteropen", "next", "get", "commit", "del"}
+Faulted ==
+       [h : {"etcd.Txn"}, txn : {"create", "update", "delete", "delete0"}, key : {"normal"}, val : {"normal"}, rev : {"current"}, fault : FaultClass]
+  \cup [h : {"etcd.Range"}, key : {"normal"}, end : {"empty", "normal"}, rev : {"zero", "past"}, limit : {"zero", "small"}, countonly : BOOLEAN, fault : FaultClass]
+  \cup [h : {"brain.Create"}, key : {"normal"}, val : {"normal"}, fault : FaultClass]
+  \cup [h : {"brain.Delete", "brain.Get"}, key : {"normal"}, rev : {"zero", "current"}, fault : FaultClass]
+  \cup [h : {"brain.Compact"}, rev : {"current"}, fault : FaultClass]
+  \cup [h : {"brain.Range", "brain.RangeStream"}, key : {"normal"}, end : {"normal"}, rev : {"zero"}, limit : {"zero", "small"}, fault : FaultClass]
+  \cup [h : {"brain.Count"}, key : {"normal"}, end : {"normal"}, fault : FaultClass]
+
 \* request space, by handler
-Reqs ==
+Reqs == Faulted \cup
        [h : {"etcd.Txn"}, txn : TxnClass, key : KeyClass, val : ValClass, rev : RevClass]
   \cup [h : {"etcd.Range"}, key : KeyClass, end : EndClass, rev : RevClass, limit : LimitClass, countonly : BOOLEAN]
   \cup [h : {"etcd.Watch"}, key : KeyClass, end : EndClass, rev : RevClass, msg : {"create", "cancel", "none"}]
